@@ -46,11 +46,10 @@ import (
 type ClusterOptions struct {
 	NOutOfOrder int
 	NInProcess  int
+	NSyncResync int
 	Workers     int
 	Driver      *Driver
 }
-
-const clusterCtx = "mode=parallel|cluster"
 
 type cunit struct {
 	Idx   int
@@ -63,6 +62,11 @@ type cunit struct {
 }
 
 type cscen struct {
+	ctx   string // signature context: "mode=…|cluster"
+	mode  config.ReplayMode
+	bases []int64 // snapshot offsets (stream starts) of the eras
+	// records the double saw committed inside unit transactions: unit_seq → end offsets (newest last)
+	recs  map[int64][]int64
 	run   *harness.Run
 	d     *Driver
 	key   string
@@ -86,6 +90,7 @@ type cscen struct {
 	holdNode int
 	holdCmd  string
 	armed    atomic.Bool
+	seen     atomic.Int64 // replies of holdCmd that passed the hold point at holdNode
 	blocked  chan struct{}
 	release  chan struct{}
 	relOnce  sync.Once
@@ -125,26 +130,32 @@ func (s *cscen) pickKey(tag string, ok func(node, lane int) bool) (string, int, 
 
 const clusterNodes = 3
 
-func newCScen(run *harness.Run, d *Driver, key string, idx int, holdBeforeExec bool) (*cscen, string) {
-	s := &cscen{run: run, d: d, key: key, r: run.Rand(key), committed: map[string]int{}, firstAt: map[string]int64{},
+// newCBase creates the cluster double with the observation hooks (no stream yet).
+func newCBase(run *harness.Run, d *Driver, key string, mode config.ReplayMode) *cscen {
+	s := &cscen{run: run, d: d, key: key, r: run.Rand(key), mode: mode, ctx: "mode=" + string(mode) + "|cluster",
+		committed: map[string]int{}, firstAt: map[string]int64{}, recs: map[int64][]int64{},
 		notify: make(chan struct{}, 1), blocked: make(chan struct{}), release: make(chan struct{}), watch: 120 * time.Second}
 	s.cl = fakeredis.NewCluster(clusterNodes, fakeredis.Options{Permissive: true, LogOnly: func(cmd string, args [][]byte) bool {
 		return len(args) == 0 || !drive.Reserved(args[0])
 	}})
-	r := s.r
-	s.lanes = 2 + r.Intn(3)
-	s.holdNode = r.Intn(clusterNodes)
-	s.holdCmd = []string{"MULTI", "MULTI", "EXEC"}[idx%3] // held before the transaction runs / after EXEC, before its reply
-	if holdBeforeExec {
-		s.holdCmd = "MULTI"
-	}
+	s.lanes = 1
+	s.holdNode = -1
+	return s
+}
+
+// hook installs the reply hold and the effect observer; call after lanes/holdNode/holdCmd are set
+// and before the first connection.
+func (s *cscen) hook() {
 	for i := 0; i < clusterNodes; i++ {
 		node := i
 		srv := s.cl.Node(i)
 		srv.ReplyDelay = func(cmd string) {
-			if node == s.holdNode && cmd == s.holdCmd && s.armed.CompareAndSwap(true, false) {
-				close(s.blocked)
-				<-s.release
+			if node == s.holdNode && cmd == s.holdCmd {
+				if s.armed.CompareAndSwap(true, false) {
+					close(s.blocked)
+					<-s.release
+				}
+				s.seen.Add(1)
 			}
 		}
 		srv.SetHooks(nil, nil, nil) // lock/unlock: orders the assignment before every later request of the node
@@ -153,14 +164,20 @@ func newCScen(run *harness.Run, d *Driver, key string, idx int, holdBeforeExec b
 		if !a.Write || a.IsErr || len(a.Args) == 0 {
 			return
 		}
+		cls := ClassOf(a.Args[0])
 		s.mu.Lock()
-		if id := gen.FindID(a.Args); id != "" && a.Txn != 0 && ClassOf(a.Args[0]) == KBusiness {
+		if id := gen.FindID(a.Args); id != "" && a.Txn != 0 && cls == KBusiness {
 			s.committed[id]++
 			if _, ok := s.firstAt[id]; !ok {
 				s.firstAt[id] = a.GReq
 			}
 		}
-		if ClassOf(a.Args[0]) == KFrontier && (a.Cmd == "HSET" || a.Cmd == "HMSET") {
+		if (cls == KCommit || cls == KLatest) && a.Txn != 0 && (a.Cmd == "HSET" || a.Cmd == "HMSET") {
+			f := hfields(a.Args)
+			seq := atoi64(f["unit_seq"])
+			s.recs[seq] = append(s.recs[seq], atoi64(f["end_offset"]))
+		}
+		if cls == KFrontier && (a.Cmd == "HSET" || a.Cmd == "HMSET") {
 			f := hfields(a.Args)
 			s.frontier = append(s.frontier, PosWrite{ReqSeq: a.GReq, Cls: KFrontier, Seq: atoi64(f["unit_seq"]), Off: atoi64(f["end_offset"])})
 		}
@@ -170,6 +187,18 @@ func newCScen(run *harness.Run, d *Driver, key string, idx int, holdBeforeExec b
 		default:
 		}
 	})
+}
+
+func newCScen(run *harness.Run, d *Driver, key string, idx int, holdBeforeExec bool) (*cscen, string) {
+	s := newCBase(run, d, key, config.ReplayModeParallel)
+	r := s.r
+	s.lanes = 2 + r.Intn(3)
+	s.holdNode = r.Intn(clusterNodes)
+	s.holdCmd = []string{"MULTI", "EXEC"}[(idx/2)%2] // held before the transaction runs / after EXEC, before its reply
+	if holdBeforeExec {
+		s.holdCmd = "MULTI"
+	}
+	s.hook()
 	tgt, err := clusterTarget(s.cl, clusterNodes)
 	if err != nil {
 		s.cl.Close()
@@ -183,6 +212,7 @@ func newCScen(run *harness.Run, d *Driver, key string, idx int, holdBeforeExec b
 	s.k = 1 + r.Intn(n-4)
 	s.m = 1 + r.Intn(2)
 	s.base = int64(1000 + r.Intn(1000000))
+	s.bases = []int64{s.base}
 	hist := "c" + alnum(key)
 	var buf bytes.Buffer
 	buf.Write(gen.Encode("SELECT", [][]byte{[]byte("0")}))
@@ -217,7 +247,11 @@ func newCScen(run *harness.Run, d *Driver, key string, idx int, holdBeforeExec b
 }
 
 func (s *cscen) open() (*syncer.RedisOutput, error) {
-	return s.d.OpenCfg(OpenCfg{Target: s.tgt, Mode: config.ReplayModeParallel, Window: 4, Parallelism: s.lanes, CanTransaction: false})
+	par := 0
+	if s.mode == config.ReplayModeParallel {
+		par = s.lanes
+	}
+	return s.d.OpenCfg(OpenCfg{Target: s.tgt, Mode: s.mode, Window: 4, Parallelism: par, CanTransaction: false})
 }
 
 // waitFor waits for a logical condition on the double's log (re-evaluated after every applied
@@ -280,11 +314,30 @@ func (s *cscen) judgeFrontiers(from int) int {
 		first[k] = v
 	}
 	s.mu.Unlock()
+	s.mu.Lock()
+	recs := map[int64][]int64{}
+	for k, v := range s.recs {
+		recs[k] = append([]int64{}, v...)
+	}
+	s.mu.Unlock()
 	for _, f := range fr[from:] {
+		// internally consistent: (seq, offset) is the pair of ONE unit record the target committed
+		// (a frontier seeded from a root checkpoint carries seq 0)
+		if f.Seq != 0 {
+			match := false
+			for _, end := range recs[f.Seq] {
+				match = match || end == f.Off
+			}
+			if !match {
+				s.run.Violation("frontier|seq-offset-mismatch|"+s.ctx, s.key,
+					fmt.Sprintf("request %d stored frontier seq=%d offset=%d, but the unit records committed under sequence number %d end at %v: the pair belongs to no unit", f.ReqSeq, f.Seq, f.Off, f.Seq, recs[f.Seq]),
+					s.witness(nil))
+			}
+		}
 		for _, u := range s.units {
 			at, ok := first[u.ID]
 			if u.End <= f.Off && (!ok || at > f.ReqSeq) {
-				s.run.Violation("frontier|passes-uncommitted-unit|"+clusterCtx, s.key,
+				s.run.Violation("frontier|passes-uncommitted-unit|"+s.ctx, s.key,
 					fmt.Sprintf("request %d stored frontier seq=%d offset=%d although unit %d (offsets %d..%d, lane %d) was not committed at that moment", f.ReqSeq, f.Seq, f.Off, u.Idx, u.Start, u.End, u.Lane),
 					s.witness(nil))
 				break
@@ -297,41 +350,58 @@ func (s *cscen) judgeFrontiers(from int) int {
 // judgeStart: the resume offset of a start.
 func (s *cscen) judgeStart(sp syncer.StartPoint, err error, what, tag string, floor int64) (int64, bool) {
 	if err != nil {
-		s.run.Violation("restart|start-point-refused|"+tag+clusterCtx, s.key, fmt.Sprintf("%s: StartPoint fails: %v", what, err), s.witness(nil))
+		s.run.Violation("restart|start-point-refused|"+tag+s.ctx, s.key, fmt.Sprintf("%s: StartPoint fails: %v", what, err), s.witness(nil))
 		return -1, false
 	}
 	R := sp.Offset
-	boundary := R == s.base
+	boundary := false
+	for _, b := range s.bases {
+		boundary = boundary || R == b
+	}
 	for _, u := range s.units {
 		boundary = boundary || u.End == R
 	}
 	if sp.RunId != SourceRunIDs()[0] || R < 0 {
-		s.run.Violation("resume|position-lost|"+tag+clusterCtx, s.key, fmt.Sprintf("%s returned %+v", what, sp), s.witness(nil))
+		s.run.Violation("resume|position-lost|"+tag+s.ctx, s.key, fmt.Sprintf("%s returned %+v", what, sp), s.witness(nil))
 		return -1, false
 	}
 	if !boundary {
-		s.run.Violation("resume|not-a-unit-boundary|"+tag+clusterCtx, s.key, fmt.Sprintf("%s: resume offset %d ends no replay unit", what, R), s.witness(nil))
+		s.run.Violation("resume|not-a-unit-boundary|"+tag+s.ctx, s.key, fmt.Sprintf("%s: resume offset %d ends no replay unit", what, R), s.witness(nil))
 		return R, false
 	}
 	s.mu.Lock()
 	var miss *cunit
+	maxEnd, beyond := s.bases[len(s.bases)-1], 0
 	for i := range s.units {
-		if s.units[i].End <= R && s.committed[s.units[i].ID] == 0 {
+		if s.units[i].End <= R && s.committed[s.units[i].ID] == 0 && miss == nil {
 			miss = &s.units[i]
-			break
+		}
+		if s.committed[s.units[i].ID] > 0 {
+			if s.units[i].End > maxEnd {
+				maxEnd = s.units[i].End
+			}
+			if s.units[i].End > R {
+				beyond++
+			}
 		}
 	}
 	s.mu.Unlock()
 	ok := true
+	if miss == nil && !s.mode.UsesFrontier() && R != maxEnd {
+		ok = false
+		s.run.Violation("resume|sync-mode-repeats-committed-units|"+tag+s.ctx, s.key,
+			fmt.Sprintf("%s: resume offset %d but the last committed unit ends at %d: %d committed units would be applied a second time", what, R, maxEnd, beyond),
+			s.witness(map[string]any{"start_point": fmt.Sprintf("%+v", sp)}))
+	}
 	if miss != nil {
 		ok = false
-		s.run.Violation("resume|skips-uncommitted-unit|"+tag+clusterCtx, s.key,
+		s.run.Violation("resume|skips-uncommitted-unit|"+tag+s.ctx, s.key,
 			fmt.Sprintf("%s: resume offset %d lies behind unit %d (offsets %d..%d, key %q, lane %d) which the target never committed: the unit is skipped", what, R, miss.Idx, miss.Start, miss.End, miss.Key, miss.Lane),
 			s.witness(map[string]any{"start_point": fmt.Sprintf("%+v", sp)}))
 	}
 	if R < floor {
 		ok = false
-		s.run.Violation("monotone|resume-point-decreased|"+tag+clusterCtx, s.key, fmt.Sprintf("%s: resume offset %d, an earlier start had returned %d", what, R, floor), s.witness(nil))
+		s.run.Violation("monotone|resume-point-decreased|"+tag+s.ctx, s.key, fmt.Sprintf("%s: resume offset %d, an earlier start had returned %d", what, R, floor), s.witness(nil))
 	}
 	return R, ok
 }
@@ -378,6 +448,21 @@ func (s *cscen) phase1(out *syncer.RedisOutput, preFlush bool) (*drive.AofRun, c
 		want := s.units[s.k-1].End
 		s.waitFor(400*time.Millisecond, func() bool { return len(s.frontier) > 0 && s.frontier[len(s.frontier)-1].Off == want })
 	}
+	// the replies of the earlier transactions at the held node must be out before the hold is armed
+	// (a unit is committed before its EXEC reply passes the hold point)
+	earlier := int64(0)
+	for _, u := range s.units[:s.k] {
+		if u.Node == s.holdNode {
+			earlier++
+		}
+	}
+	for t0 := time.Now(); s.seen.Load() < earlier; {
+		if time.Since(t0) > s.watch {
+			cancel()
+			return ar, cancel, "watchdog: replies of the earlier units at the held node not seen"
+		}
+		time.Sleep(200 * time.Microsecond)
+	}
 	s.armed.Store(true)
 	close(g1)
 	select {
@@ -406,10 +491,11 @@ func (s *cscen) releaseHold() { s.relOnce.Do(func() { close(s.release) }) }
 
 // finish replays the rest of the stream from R on `out` until every unit from R on is committed.
 func (s *cscen) finish(out *syncer.RedisOutput, R int64, waitFlush bool) string {
+	data, base := s.data, s.bases[len(s.bases)-1]
 	ctx, cancel := context.WithCancel(context.Background())
 	defer cancel()
 	ss := &drive.Session{IDs: SourceRunIDs(), Out: out, Watch: s.watch}
-	ar := ss.SendAof(ctx, R, []drive.Step{{Data: s.data[R-s.base:]}}, false, 4096)
+	ar := ss.SendAof(ctx, R, []drive.Step{{Data: data[R-base:]}}, false, 4096)
 	from := len(s.units)
 	for i, u := range s.units {
 		if u.End > R {
@@ -444,7 +530,7 @@ func (s *cscen) finish(out *syncer.RedisOutput, R int64, waitFlush bool) string 
 		ar.F.Abort()
 		return fmt.Sprintf("the resumed Send returned by itself: %v", er)
 	}
-	if waitFlush {
+	if waitFlush && s.mode.UsesFrontier() {
 		last := s.units[len(s.units)-1].End
 		nf := s.nFrontier()
 		s.waitFor(2*time.Second, func() bool { return len(s.frontier) > nf && s.frontier[len(s.frontier)-1].Off >= last })
@@ -470,8 +556,11 @@ func (s *cscen) judgeFinal(what string) {
 	s.mu.Unlock()
 	s.run.Count("cluster_units_repeated", int64(repeated))
 	s.run.Count("cluster_units_committed", int64(len(s.units)-len(lost)))
+	if repeated > 0 && !s.mode.UsesFrontier() {
+		s.run.Violation("resumed-run|sync-mode-unit-applied-twice|"+s.ctx, s.key, fmt.Sprintf("%s: %d units were committed more than once although sync mode resumes exactly after the last committed unit", what, repeated), s.witness(nil))
+	}
 	if len(lost) > 0 {
-		s.run.Violation("resumed-run|unit-never-committed|"+clusterCtx, s.key, fmt.Sprintf("%s: after the stream was replayed to its end %s never reached the target", what, strings.Join(lost, ", ")), s.witness(nil))
+		s.run.Violation("resumed-run|unit-never-committed|"+s.ctx, s.key, fmt.Sprintf("%s: after the stream was replayed to its end %s never reached the target", what, strings.Join(lost, ", ")), s.witness(nil))
 	}
 }
 
@@ -485,7 +574,7 @@ func outOfOrderStop(run *harness.Run, d *Driver, key string, idx int) {
 	defer s.cl.Close()
 	defer s.releaseHold()
 	preFlush := s.k >= 1 && s.r.Intn(2) == 0
-	s.desc = "out-of-order acknowledgement then stop; " + s.desc + fmt.Sprintf(" flush-before=%v", preFlush)
+	s.desc = "out-of-order acknowledgement then stop; " + s.desc + fmt.Sprintf(" flush-before=%v gap-closes-last(held unit released before the stop)=%v", preFlush, idx%2 == 1)
 	out, why := s.firstStart()
 	if out == nil {
 		run.Inconclusive("%s: %s", key, why)
@@ -499,22 +588,46 @@ func outOfOrderStop(run *harness.Run, d *Driver, key string, idx int) {
 		run.Inconclusive("%s: %s (%s)", key, why, s.desc)
 		return
 	}
-	// exposure: a frontier flush may fire now (100 ms ticker).  The wait ends at the logical event
-	// "a frontier write arrived after the later units were committed" or after three intervals.
-	s.mu.Lock()
-	nf, after := len(s.frontier), s.firstAt[s.units[s.k+s.m].ID]
-	s.mu.Unlock()
-	flushed := s.waitFor(330*time.Millisecond, func() bool { return len(s.frontier) > nf && s.frontier[len(s.frontier)-1].ReqSeq > after })
-	// stop: the tool is stopped, what the held connection had sent is discarded
-	cancel()
-	s.cl.Node(s.holdNode).Kill()
-	s.releaseHold()
+	gapClosesLast := idx%2 == 1
+	flushed := false
+	if gapClosesLast {
+		// the held unit is let go: its acknowledgement arrives AFTER those of the later units and
+		// closes the gap; then a frontier flush (logical event: a frontier write after its commit,
+		// bounded exposure), then the stop
+		time.Sleep(time.Duration(5+s.r.Intn(40)) * time.Millisecond) // the later acknowledgements get handled first
+		s.releaseHold()
+		if !s.waitFor(s.watch, s.committedRange(s.k, s.k+1)) {
+			run.Inconclusive("%s: watchdog: the released unit was not committed", key)
+			return
+		}
+		s.mu.Lock()
+		nf, after := len(s.frontier), s.firstAt[s.units[s.k].ID]
+		if s.holdCmd == "EXEC" {
+			after = s.firstAt[s.units[s.k+s.m].ID]
+		}
+		s.mu.Unlock()
+		flushed = s.waitFor(400*time.Millisecond, func() bool { return len(s.frontier) > nf && s.frontier[len(s.frontier)-1].ReqSeq > after })
+		cancel()
+	} else {
+		// exposure: a frontier flush may fire now (100 ms ticker).  The wait ends at the logical event
+		// "a frontier write arrived after the later units were committed" or after three intervals.
+		s.mu.Lock()
+		nf, after := len(s.frontier), s.firstAt[s.units[s.k+s.m].ID]
+		s.mu.Unlock()
+		flushed = s.waitFor(330*time.Millisecond, func() bool { return len(s.frontier) > nf && s.frontier[len(s.frontier)-1].ReqSeq > after })
+		// stop: the tool is stopped, what the held connection had sent is discarded
+		cancel()
+		s.cl.Node(s.holdNode).Kill()
+		s.releaseHold()
+	}
 	if _, ok := ar.Wait(s.watch); !ok {
 		run.Inconclusive("%s: Send did not return after the stop", key)
 		return
 	}
 	s.cl.WaitIdle(20*time.Millisecond, 5*time.Second)
-	s.cl.Node(s.holdNode).Revive()
+	if !gapClosesLast {
+		s.cl.Node(s.holdNode).Revive()
+	}
 	run.Eval(1)
 	run.Count("cluster_out_of_order_stops", 1)
 	if flushed {
@@ -523,7 +636,10 @@ func outOfOrderStop(run *harness.Run, d *Driver, key string, idx int) {
 	s.mu.Lock()
 	heldCommitted := s.committed[s.units[s.k].ID] > 0
 	s.mu.Unlock()
-	run.Distinct(fmt.Sprintf("%s|out-of-order-stop|hold=%s|lanes=%d|flush-before=%v|flush-during=%v|held-committed=%v", clusterCtx, s.holdCmd, s.lanes, preFlush, flushed, heldCommitted))
+	run.Distinct(fmt.Sprintf("%s|out-of-order-stop|hold=%s|gap-closes-last=%v|lanes=%d|flush-before=%v|flush-seen=%v|held-committed=%v", s.ctx, s.holdCmd, gapClosesLast, s.lanes, preFlush, flushed, heldCommitted))
+	if gapClosesLast {
+		run.Count("cluster_gap_closed_last", 1)
+	}
 	s.judgeFrontiers(0)
 
 	// fresh instances (one; every third scenario two in a row without traffic — a start on a cluster
@@ -533,7 +649,7 @@ func outOfOrderStop(run *harness.Run, d *Driver, key string, idx int) {
 	var last *syncer.RedisOutput
 	var R int64
 	starts := 1
-	if s.r.Intn(3) == 0 {
+	if s.r.Intn(3) == 0 || gapClosesLast {
 		starts = 2
 	}
 	for i := 1; i <= starts; i++ {
@@ -557,7 +673,7 @@ func outOfOrderStop(run *harness.Run, d *Driver, key string, idx int) {
 	if R != s.base && !boundary {
 		return
 	}
-	nf = s.nFrontier()
+	nf := s.nFrontier()
 	if why := s.finish(last, R, true); why != "" {
 		run.Inconclusive("%s: %s", key, why)
 		return
@@ -633,7 +749,7 @@ func inProcessRestart(run *harness.Run, d *Driver, key string, idx int) {
 	s.cl.WaitIdle(20*time.Millisecond, 5*time.Second)
 	run.Eval(1)
 	run.Count("cluster_in_process_restarts", 1)
-	run.Distinct(fmt.Sprintf("%s|in-process-restart|lanes=%d|drop=%v", clusterCtx, s.lanes, s.failDrop))
+	run.Distinct(fmt.Sprintf("%s|in-process-restart|lanes=%d|drop=%v", s.ctx, s.lanes, s.failDrop))
 	s.judgeFrontiers(0)
 
 	// the same RedisOutput again: StartPoint, Send from there
@@ -673,6 +789,127 @@ func inProcessRestart(run *harness.Run, d *Driver, key string, idx int) {
 	s.judgeFinal("in-process restart")
 }
 
+// syncResync is schedule (3): SYNC mode on the cluster (one latest record per slot).  Era 1: units
+// into several slots; a second snapshot under the unchanged run id on the SAME instance
+// (StartPoint → Send(snapshot) → StartPoint → Send(stream), as RedisInput.run does after
+// +FULLRESYNC); era 2: fewer units than era 1, into other slots; stop; a fresh instance must
+// resume exactly after the last committed unit and the resumed run must repeat nothing.
+func syncResync(run *harness.Run, d *Driver, key string, idx int) {
+	s := newCBase(run, d, key, config.ReplayModeSync)
+	defer s.cl.Close()
+	s.hook()
+	tgt, err := clusterTarget(s.cl, clusterNodes)
+	if err != nil {
+		run.Inconclusive("%s: %v", key, err)
+		return
+	}
+	s.tgt = tgt
+	r := s.r
+	hist := "s" + alnum(key)
+	n1 := 4 + r.Intn(3)
+	n2 := 3 + r.Intn(2)
+	n2a := 1 + r.Intn(2) // era-2 units committed before the stop (fewer than era 1's highest sequence number)
+	usedSlots := map[int]bool{}
+	build := func(base int64, n, first int) []byte {
+		var buf bytes.Buffer
+		buf.Write(gen.Encode("SELECT", [][]byte{[]byte("0")}))
+		for i := 0; i < n; i++ {
+			key, node, _ := s.pickKey(fmt.Sprintf("%s:%d", hist, first+i), func(node, lane int) bool { return true })
+			for usedSlots[fakeredis.Slot([]byte(key))] {
+				key, node, _ = s.pickKey(fmt.Sprintf("%s:%d:%d", hist, first+i, r.Intn(1000)), func(node, lane int) bool { return true })
+			}
+			usedSlots[fakeredis.Slot([]byte(key))] = true
+			id := fmt.Sprintf("~%s.%d~", hist, first+i)
+			if r.Intn(4) == 0 {
+				buf.Write(gen.Encode("PING", nil))
+			}
+			u := cunit{Idx: first + i + 1, Key: key, ID: id, Node: node, Start: base + int64(buf.Len())}
+			buf.Write(gen.Encode("SET", [][]byte{[]byte(key), []byte(id + "v")}))
+			u.End = base + int64(buf.Len())
+			s.units = append(s.units, u)
+		}
+		return buf.Bytes()
+	}
+	base1 := int64(1000 + r.Intn(100000))
+	data1 := build(base1, n1, 0)
+	base2 := base1 + int64(len(data1)) + int64(1+r.Intn(50000))
+	data2 := build(base2, n2, n1)
+	s.base, s.bases = base1, []int64{base1}
+	s.desc = fmt.Sprintf("sync mode, resynchronisation under the same run id: era 1 = %d units from %d, second snapshot at %d, era 2 = %d units (%d committed before the stop)", n1, base1, base2, n2, n2a)
+	ids := SourceRunIDs()
+	ctx := context.Background()
+
+	out, why := s.firstStart()
+	if out == nil {
+		run.Inconclusive("%s: %s", key, why)
+		return
+	}
+	sendUntil := func(base int64, data []byte, from, to int) string { // commits units[from:to]
+		cctx, cancel := context.WithCancel(ctx)
+		defer cancel()
+		ss := &drive.Session{IDs: ids, Out: out, Watch: s.watch}
+		ar := ss.SendAof(cctx, base, []drive.Step{{Data: data[:s.units[to-1].End-base]}}, false, 4096)
+		if !s.waitFor(s.watch, s.committedRange(from, to)) {
+			ar.Stop(5 * time.Second)
+			return "watchdog: units not committed"
+		}
+		if _, ok := ar.Stop(s.watch); !ok {
+			return "Send did not return after cancel"
+		}
+		return ""
+	}
+	if why := sendUntil(base1, data1, 0, n1); why != "" {
+		run.Inconclusive("%s: era 1: %s", key, why)
+		return
+	}
+	// the same instance is told to resynchronise: StartPoint, snapshot, StartPoint, stream
+	sp, err := out.StartPoint(ctx, ids)
+	s.judgeStart(sp, err, "StartPoint on the same output after era 1", "in-process-restart|", base1)
+	ss := &drive.Session{IDs: ids, Out: out, Watch: s.watch}
+	if err := ss.FullSync(ctx, drive.EmptyRDB, base2); err != nil {
+		run.Inconclusive("%s: second snapshot: %v", key, err)
+		return
+	}
+	s.base, s.bases, s.data = base2, []int64{base1, base2}, data2
+	sp, err = out.StartPoint(ctx, ids)
+	if err != nil || sp.Offset != base2 {
+		run.Inconclusive("%s: StartPoint after the second snapshot: %+v %v (snapshot offset %d)", key, sp, err, base2)
+		return
+	}
+	if why := sendUntil(base2, data2, n1, n1+n2a); why != "" {
+		run.Inconclusive("%s: era 2: %s", key, why)
+		return
+	}
+	s.cl.WaitIdle(20*time.Millisecond, 5*time.Second)
+	run.Eval(1)
+	run.Count("cluster_sync_resyncs", 1)
+	run.Distinct(fmt.Sprintf("%s|resync-same-run-id|era1=%d|era2-before-stop=%d", s.ctx, n1, n2a))
+
+	o, err := s.open()
+	if err != nil {
+		run.Inconclusive("%s: fresh instance: start-up bookkeeping: %v", key, err)
+		return
+	}
+	sp, err = o.StartPoint(ctx, ids)
+	R, _ := s.judgeStart(sp, err, "fresh instance after the resynchronisation and "+fmt.Sprint(n2a)+" further units", "after-resync|", -1)
+	run.Count("cluster_tool_starts", 1)
+	if err != nil || R < base2 {
+		return
+	}
+	ok := R == base2
+	for _, u := range s.units[n1:] {
+		ok = ok || u.End == R
+	}
+	if !ok {
+		return
+	}
+	if why := s.finish(o, R, false); why != "" {
+		run.Inconclusive("%s: %s", key, why)
+		return
+	}
+	s.judgeFinal("resynchronisation under the same run id, fresh start")
+}
+
 func trunc200(s string) string {
 	if len(s) > 200 {
 		return s[:200] + "…"
@@ -693,6 +930,9 @@ func ClusterScenarios(run *harness.Run, o ClusterOptions) {
 	}
 	for i := 0; i < o.NInProcess; i++ {
 		jobs = append(jobs, job{fmt.Sprintf("cluster-inproc-%d", i), i, inProcessRestart})
+	}
+	for i := 0; i < o.NSyncResync; i++ {
+		jobs = append(jobs, job{fmt.Sprintf("cluster-syncresync-%d", i), i, syncResync})
 	}
 	harness.Parallel(len(jobs), o.Workers, func(i int) {
 		if run.WantCase(jobs[i].key) {
